@@ -10,6 +10,17 @@ base.py, posixbase.py, _signals.py and asyncioreactor.py — so a producer can b
 descheduled between `threadCallQueue.append` and `wakeUp`, the reactor between
 draining the queue and deleting the drained slice, etc.
 
+Two further families.  (1) callFromThread(f, *args, **kwargs): in half of the runs
+a third of the issued calls carry keyword arguments (some or all of their
+arguments), mixed with positional calls of the same thread.  (2) State carried
+across uses: in four runs of ten the reactor is crash()ed - from a thread call,
+a callWhenRunning hook, a timed call or the I/O callback of an inbound
+connection, with unrelated short timers armed or not - and run() again, once or
+twice, on the same thread (crash() + run() is the supported restart; a stop()ped
+reactor is not restartable).  Producers keep issuing across the restart and
+further producers start once the later run has started; every call, whichever
+run it was issued in, is judged by the same clauses.
+
 Promptness is stated without timing: while an issued call is un-run, the
 simulator must never have to advance simulated time (i.e. the reactor must not
 be asleep in its poller with nothing ready and nobody else runnable); with an
@@ -23,17 +34,26 @@ ID = "C13"
 ENGINE = "threads+kernel"
 LEVEL = "exploration"
 TECHNIQUE = "deterministic simulation: real reactor main loop + producer threads as baton threads over fake pollers, tape-chosen interleaving incl. line-level pre-emption; lost wake-up = forced clock advance or deadlock"
-QUICK_RUNS = 1600
+QUICK_RUNS = 1400
 BATCH = 20
 COMPONENTS = {"real": ["twisted.internet.base.ReactorBase.callFromThread/runUntilCurrent/wakeUp/mainLoop", "twisted.internet.posixbase._UnixWaker (real OS pipe)",
                        "selectreactor/pollreactor/epollreactor doIteration", "asyncioreactor.AsyncioSelectorReactor.callFromThread/run + asyncio's SelectorEventLoop (real self-pipe)"],
               "stub": ["OS thread scheduling (detsim.threads baton)", "select/poll/epoll/selector syscalls (detsim.kernel pollers; real fds polled with zero timeout)", "wall clock"]}
-RULE = ("run = one tape-chosen reactor running its real main loop, 1..6 producer threads each issuing 1..12 callFromThread calls (some calls re-issue callFromThread from the reactor thread; in half of the runs a fifth of the calls raise after doing their work), "
-        "far-future timers and an idle listening socket present; interleaving chosen at poller boundaries and at lines of the reactor source with probability p in {0, .05, .2} under a uniform scheduler, or under a PCT (priority) scheduler with few long-lasting pre-emptions; "
+RULE = ("run = one tape-chosen reactor running its real main loop, 1..6 producer threads each issuing 1..12 callFromThread calls (some calls re-issue callFromThread from the reactor thread; in half of the runs a fifth of the calls raise after doing their work; "
+        "in half of the runs three calls of ten pass some or all of their arguments as keyword arguments), far-future timers and a listening socket present; "
+        "in 4 runs of 10 the reactor is crash()ed once or twice - from a thread call, a callWhenRunning hook, a timed call or the I/O callback of an inbound connection, with or without "
+        "a short unrelated timer armed - and run() again on the same thread, 1..2 more producers of 1..6 calls starting once that later run has started while the earlier ones carry on; interleaving chosen at poller boundaries and at lines of the reactor source with probability p in {0, .05, .2} under a uniform scheduler, or under a PCT (priority) scheduler with few long-lasting pre-emptions; "
         "non-trivial = >= 2 producers and the reactor actually blocked in its poller at least once while producers were still running, or a line-level pre-emption fired")
 ASSUMPTIONS = ["the reactor's clock is strictly increasing between two readings (monotonic clock with sub-call resolution)", "CPython list.append / slice deletion are atomic between trace 'line' events (the GIL guarantee the code relies on)",
-               "quantifier's 10^4-call figure is not reached: <= 72 calls per run (depth is bounded by baton hand-over cost, not soundness)"]
+               "quantifier's 10^4-call figure is not reached: <= 72 calls per run, + <= 24 in runs with restarts (depth is bounded by baton hand-over cost, not soundness)",
+               "restart family: a call issued by a still-running producer between crash() and the next run() is expected to run (once, in order) in that next run - the unchanged reactors queue it; "
+               "nothing is demanded of its latency until the reactor sleeps in its poller again",
+               "short timers are 0..5e-6 s (0..50 clock readings): the poll reactor truncates timeouts to whole milliseconds and busy-polls the remainder one clock reading at a time"]
 RUN_WALL_LIMIT_S = 60
+# short timer delays, in units of the simulated clock's resolution (1e-7 s per reading): the poll reactor truncates its timeout to whole
+# milliseconds and busy-polls for the rest, one clock reading at a time, so longer delays only buy thousands of empty iterations
+DELAYS = (0, 1e-6, 5e-6)
+CRASH_FROM = ("thread", "hook", "timer", "io")   # where reactor.crash() is called from: a thread call, a callWhenRunning hook, a timed call, an I/O callback
 
 
 def run(sim):
@@ -45,7 +65,12 @@ def run(sim):
     if policy == "pct" and preempt:
         preempt = sim.draw_choice([0.004, 0.015], "pct_change_p")   # few, long-lasting pre-emptions (see detsim.threads.Scheduler)
     raising = sim.draw_bool(0.5, "raising_calls")
-    sim.config = {"reactor": kind, "producers": nprod, "preempt_p": preempt, "far_timer": with_timer, "policy": policy, "raising_calls": raising}
+    kw_p = sim.draw_choice([0.0, 0.3], "keyword_calls_p")          # share of the issued calls that carry keyword arguments
+    ncrash = sim.draw_weighted([(0, 6), (1, 3), (2, 1)], "restarts")   # the reactor is crash()ed and run() again this many times
+    plan = [sim.draw_choice(CRASH_FROM, "crash_from") for _ in range(ncrash)]
+    near_p = sim.draw_choice([0.0, 0.5], "near_timer_p")            # an unrelated short timer is armed before a run() with this probability
+    sim.config = {"reactor": kind, "producers": nprod, "preempt_p": preempt, "far_timer": with_timer, "policy": policy, "raising_calls": raising,
+                  "keyword_calls_p": kw_p, "restarts": plan, "near_timer_p": near_p}
     now = [0.0]
     kern = K.Kernel(sim)
     kern.permute_ready = False
@@ -55,7 +80,8 @@ def run(sim):
     issued = []          # (producer, k) in issue order
     ran = []             # (producer, k) in run order
     ran_thread = []
-    st = {"asleep": None, "producers_done": False, "blocked_while_producing": 0, "reactor_thread": None, "stopping": False}
+    st = {"asleep": None, "producers_done": False, "blocked_while_producing": 0, "reactor_thread": None, "stopping": False,
+          "started": 0, "crashes": 0, "restart": False}
 
     def idle(timeout, scan):
         # called on the reactor thread when its poller found nothing ready
@@ -95,38 +121,111 @@ def run(sim):
                 return now[0]
 
             r = R.make_reactor(kind, kern, clock_read)
-            port = r.listenTCP(0, protocol.Factory(), interface="127.0.0.1")   # an unrelated, idle descriptor
+
+            def do_crash(how):
+                # always runs on the reactor thread, inside run(): crash() + run() is the supported way to restart a reactor
+                st["crashes"] += 1
+                st["restart"] = True
+                sim.fault("crash_from_" + how)
+                sim.event("crash", how)
+                r.crash()
+
+            class Visitor(protocol.Protocol):
+                def connectionMade(self):
+                    do_crash("io")
+
+            factory = protocol.Factory()
+            factory.protocol = Visitor
+            port = r.listenTCP(0, factory, interface="127.0.0.1")               # an unrelated descriptor, idle unless a run is crashed from its I/O callback
+            addr = port.getHost()
             if with_timer:
                 r.callLater(1000.0, lambda: None)                              # an unrelated, far timer
 
-            def record(p, k, again, boom=False):
+            def issue(name, k, again, boom):
+                """One callFromThread call; callFromThread(f, *args, **kwargs) accepts keyword arguments as well."""
+                style = sim.draw_weighted([("positional", 2), ("keyword", 2), ("all-keyword", 1)], "call_style") if kw_p and sim.draw_bool(kw_p, "keyword_call") else "positional"
+                issued.append((name, k))
+                if st["started"] > 1:
+                    sim.probe("call_issued_in_a_later_run")
+                if style == "positional":
+                    r.callFromThread(record, name, k, again, boom)
+                elif style == "keyword":
+                    sim.probe("call_with_keyword_arguments")
+                    r.callFromThread(record, name, k, boom=boom, again=again)
+                else:
+                    sim.probe("call_with_keyword_arguments")
+                    r.callFromThread(record, again=again, k=k, p=name, boom=boom)
+
+            def record(p, k, again=False, boom=False):
                 ran.append((p, k))
                 ran_thread.append(sched.me())
                 if again:
                     # a call issued from the reactor thread itself
-                    issued.append(("r" + p, k))
-                    r.callFromThread(record, "r" + p, k, False)
+                    issue("r" + p, k, False, False)
                 if boom:
                     # a call may fail; the reactor logs the failure and every other call still runs exactly once
                     sim.fault("call_raised")
                     raise RuntimeError("call %s/%d fails" % (p, k))
 
+            def on_start():
+                st["started"] += 1
+
+            def near_timer_fired():
+                sim.probe("near_timer_fired")
+
             def reactor_main():
                 st["reactor_thread"] = sched.me()
-                r.run(installSignalHandlers=False)
+                run_no = 0
+                while True:
+                    # what an application does between two run()s: startup hooks, timers
+                    r.callWhenRunning(on_start)
+                    if near_p and sim.draw_bool(near_p, "near_timer"):
+                        r.callLater(sim.draw_choice(DELAYS, "near_delay"), near_timer_fired)   # an unrelated, short timer
+                    how = plan[run_no] if run_no < ncrash else None
+                    if how == "hook":
+                        r.callWhenRunning(do_crash, "hook")
+                    elif how == "timer":
+                        r.callLater(sim.draw_choice(DELAYS, "crash_delay"), do_crash, "timer")
+                    st["restart"] = False
+                    r.run(installSignalHandlers=False)
+                    if not st["restart"]:
+                        return
+                    run_no += 1
+                    sim.probe("reactor_run_again_after_crash")
 
-            def producer(p, n):
+            def producer(p, n, group):
+                if group:
+                    # producers of a later group start once that run of the reactor has started
+                    sched.block_until(lambda: st["started"] > group, "run-started")
                 for k in range(n):
                     for _ in range(sim.draw_int(0, 2, "pause")):
                         sched.point("producer-pause")
                     again = sim.draw_bool(0.15, "again")
                     boom = raising and sim.draw_bool(0.2, "raises")
-                    issued.append(("p%d" % p, k))
                     sim.event("issue", p, k)
-                    r.callFromThread(record, "p%d" % p, k, again, boom)
+                    issue("p%d" % p, k, again, boom)
+
+            def crasher(g, how):
+                # ends run number g of the reactor from a thread call, or from the I/O callback of an inbound connection
+                sched.block_until(lambda: st["started"] > g, "run-started")
+                for _ in range(sim.draw_int(0, 8, "crash_pause")):
+                    sched.point("crasher-pause")
+                if how == "thread":
+                    r.callFromThread(do_crash, "thread")
+                else:
+                    c = kern.socket()
+                    c.connect_ex((addr.host, addr.port))
+                    sched.point("syn-sent")
+                    kern.fire("connect", c)
 
             rt = sched.spawn("reactor", reactor_main)
-            prods = [sched.spawn("prod%d" % p, producer, p, sim.draw_int(1, 12, "ncalls")) for p in range(nprod)]
+            prods = [sched.spawn("prod%d" % p, producer, p, sim.draw_int(1, 12, "ncalls"), 0) for p in range(nprod)]
+            for g in range(ncrash):
+                if plan[g] in ("thread", "io"):
+                    prods.append(sched.spawn("crasher%d" % g, crasher, g, plan[g]))
+                for _ in range(sim.draw_int(1, 2, "late_producers")):
+                    prods.append(sched.spawn("prod%d" % len(prods), producer, len(prods), sim.draw_int(1, 6, "late_ncalls"), g + 1))
+
             def lost(e):
                 pending = len(issued) - len(ran)
                 sim.fail("lost-wakeup-deadlock" if pending else "deadlock", kind,
@@ -174,4 +273,9 @@ MUTANTS = [
     "base.callFromThread without self.wakeUp() -> CAUGHT lost-wakeup-deadlock / prompt-no-sleep-while-call-pending",
     "base.runUntilCurrent: del self.threadCallQueue[:] instead of [:count] (drops concurrently appended calls) -> CAUGHT lost-wakeup-deadlock / each-call-exactly-once",
     "base.runUntilCurrent without the re-wakeUp when calls remain -> survives: equivalent, the appending thread always calls wakeUp itself",
+    "base.callFromThread: calls with keyword arguments are inserted at the head of threadCallQueue -> CAUGHT per-thread-order / each-call-exactly-once (keyword-call family)",
+    "asyncioreactor.callFromThread: calls with keyword arguments scheduled with callLater(1e-6) instead of 0 -> CAUGHT per-thread-order / prompt-no-sleep-while-call-pending (keyword-call family)",
+    "base.crash() also empties threadCallQueue -> CAUGHT lost-wakeup-deadlock / prompt-no-sleep-while-call-pending (restart family: calls queued when the run was crashed never run in the next run)",
+    "seeded C13-r4a (asyncio: positional-only calls bypass the timed-call route the keyword calls keep) -> CAUGHT per-thread-order:asyncio",
+    "seeded C13-r4b (asyncio: crash() cancels the loop timer but keeps _scheduledAt; after crash from a hook / I/O callback with a due timer armed, the next run never runs thread calls) -> CAUGHT lost-wakeup-deadlock:asyncio",
 ]
